@@ -165,7 +165,7 @@ def fsck(dev, g, pending=None, read_data=True, max_depth=8):
                     e.chain = chain(dev, g, first, problems, p, p, owned)
                     if len(e.chain) * g.bpc < size:
                         problems.append("%s: chain of %d clusters too short for size %d" % (p, len(e.chain), size))
-                    if read_data:
+                    if read_data and size <= (64 << 20):
                         raw = b"".join(blk(dev, b) for c in e.chain for b in cluster_blocks(g, c))
                         e.data = raw[:size]
             out.append(e)
